@@ -235,7 +235,7 @@ def instantiate(template: str, ns: Dict[str, Any]) -> str:
             res.append((t, s))
     if not res:
         return template
-    lines = template.splitlines(True)
+    lines = re.split(r"(?<=\n)", template)  # the tokenizer counts lines by \n only (not \x0c, \r)
     # apply from the end
     for t, s in sorted(res, key=lambda p: (p[0].start[0], p[0].start[1]), reverse=True):
         ln = t.start[0] - 1
@@ -371,7 +371,7 @@ def mask_snapshot_args(text: str) -> str:
     """text with the argument span of every outermost snapshot( ... ) call blanked."""
     with NoTracing():
         tree = ast.parse(text)
-        lines = text.splitlines(True)
+        lines = re.split(r"(?<=\n)", text)  # ast counts lines by \n (and \r\n), not by \x0c
         offs = [0]
         for l in lines:
             offs.append(offs[-1] + len(l.encode("utf-8")))
@@ -393,7 +393,7 @@ def mask_snapshot_args(text: str) -> str:
         out = bytearray()
         last = 0
         for s, e in sorted(spans):
-            out += b[last:s] + b"(#)"
+            out += b[last:s] + b"(...)"
             last = e
         out += b[last:]
         return out.decode("utf-8")
@@ -671,3 +671,17 @@ def passes_when_disabled(text: str, extra_globals=None, tests=None):
             except Exception:
                 return False
     return True
+
+
+def prewarm(*calls):
+    """Run the given thunks once concretely (fills the executing / asttokens / black caches so that the symbolic
+    paths are deterministic).  Results are ignored and nothing may escape: the conditions decide, not the warm-up."""
+    W.concrete = True
+    try:
+        for c in calls:
+            try:
+                c()
+            except Exception:
+                pass
+    finally:
+        W.concrete = False
